@@ -1168,16 +1168,31 @@ func TestC08(t *testing.T) {
 	if v, err := strconv.Atoi(os.Getenv("C08_NETBASE")); err == nil {
 		base = v
 	}
-	lanes := make([]*lane, nl)
-	for i := range lanes {
-		l, err := newLane(t, i, base)
-		if err != nil {
-			for _, x := range lanes[:i] {
-				x.close()
+	// The lanes bind fixed loopback addresses derived from `base`.  If another run of this check is
+	// using them at the moment (two checks started side by side on one machine), move to the next
+	// free block instead of giving up.
+	var lanes []*lane
+	var lastErr error
+	for attempt := 0; attempt < 4 && lanes == nil; attempt++ {
+		ls := make([]*lane, nl)
+		ok := true
+		for i := range ls {
+			l, err := newLane(t, i, base+attempt*20)
+			if err != nil {
+				for _, x := range ls[:i] {
+					x.close()
+				}
+				ok, lastErr = false, fmt.Errorf("lane %d (address block %d): %v", i, base+attempt*20, err)
+				break
 			}
-			t.Fatalf("lane %d: %v", i, err)
+			ls[i] = l
 		}
-		lanes[i] = l
+		if ok {
+			lanes = ls
+		}
+	}
+	if lanes == nil {
+		t.Fatalf("%v", lastErr)
 	}
 	defer func() {
 		for _, l := range lanes {
